@@ -9,10 +9,10 @@
    two list levels for the value at hand, no blank last element, no U+0001 — and the shapes the
    keyword decoder inverts).  The model's cell parser is CellParser.parse without templating:
    strings with Jinja openers are outside the modelled fragment (evidence: assumptions). *)
-From Coq Require Import List NArith ZArith Bool.
+From Coq Require Import List NArith ZArith Bool Permutation.
 From RPFT Require Import Base.Sexp Base.PyStr Base.Result Gen.Tables Cell.Cell Row.Ty Row.Layout Row.RowParse
   Row.RowUnparse Row.FlowRow Row.RowFacts Row.TextFacts Row.RoundTrip Row.RoundTripFacts Row.RoundTripExamples
-  Row.RefuteFacts Row.CtxRoundTripFacts Row.FlowRowFacts.
+  Row.RefuteFacts Row.CtxRoundTripFacts Row.FlowRowFacts Row.OrderFacts.
 Import ListNotations.
 
 (* the regenerated constants satisfy what the proofs need *)
@@ -111,6 +111,31 @@ Theorem C07_flow_wrong_mainarg_refuted :
      end = true.
 Proof. exact flow_wrong_mainarg_refuted. Qed.
 Print Assumptions C07_flow_wrong_mainarg_refuted.
+
+(* 3. the order of the columns is irrelevant as long as the columns of one list first appear by
+      increasing index ([cols_ordered], on the headers split at "."): any such permutation of the
+      written row is read back as the instance (covers any column order a sheet may have) *)
+Theorem C07_header_order_irrelevant : forall root v targets cells cells',
+  row_dom root v targets = true ->
+  unparse_row root v targets [] = Ok cells ->
+  Permutation cells cells' ->
+  cols_ordered root (cols_of_cells cells') = true ->
+  parse_row {| rm_ty := root; rm_ctx := None |} cells' = Ok v.
+Proof. exact header_order_irrelevant. Qed.
+Print Assumptions C07_header_order_irrelevant.
+
+Example C07_header_order_irrelevant_nonvacuous :
+  Permutation ex_cells ex_cells_shuffled /\ cols_ordered ex_ty (cols_of_cells ex_cells_shuffled) = true.
+Proof. exact ex_shuffled_hyps. Qed.
+Print Assumptions C07_header_order_irrelevant_nonvacuous.
+
+(* ... and the ordering condition cannot be dropped: u.2 before u.1 *)
+Theorem C07_header_order_unrestricted_refuted :
+  Permutation ex_cells ex_cells_bad_order
+  /\ cols_ordered ex_ty (cols_of_cells ex_cells_bad_order) = false
+  /\ parse_row {| rm_ty := ex_ty; rm_ctx := None |} ex_cells_bad_order = Err EAssert.
+Proof. exact header_order_unrestricted_refuted. Qed.
+Print Assumptions C07_header_order_unrestricted_refuted.
 
 (* 4. the hypotheses cannot be dropped: witnesses outside the domain (replayed on the real
       RowParser by the harness) *)
